@@ -59,7 +59,7 @@ type recBackend struct {
 }
 
 func newRecBackend(network, addr string) (*recBackend, error) {
-	l, err := net.Listen(network, addr)
+	l, err := listenRetry(network, addr)
 	if err != nil {
 		return nil, err
 	}
@@ -230,8 +230,7 @@ func genTarget(r *rand.Rand) (string, string) {
 // ---- raw client ----
 
 func rawExchange(addr string, useTLS bool, reqBytes []byte) (*http.Response, []byte, string, error) {
-	d := net.Dialer{Timeout: 10 * time.Second}
-	conn, err := d.Dial("tcp", addr)
+	conn, err := dialRetry("tcp", addr)
 	if err != nil {
 		return nil, nil, "", err
 	}
@@ -295,15 +294,16 @@ func c08Rewrite(c *Ctx) {
 			req.URL = &url.URL{Scheme: "http", Host: b.l.Addr().String(), Path: "/ignored-backend-prefix"}
 			fwd.ServeHTTP(w, req)
 		})
-		s := httptest.NewUnstartedServer(h)
+		netw, addr := "tcp4", "127.0.0.1:0"
 		if k.net == "tcp6" {
-			l, err := net.Listen("tcp6", "[::1]:0")
-			if err != nil {
-				return nil
-			}
-			s.Listener.Close()
-			s.Listener = l
+			netw, addr = "tcp6", "[::1]:0"
 		}
+		if l, err := listenRetry(netw, addr); err != nil {
+			return nil
+		} else {
+			l.Close()
+		}
+		s := newUnstartedServer(h, netw, addr)
 		if k.tls {
 			s.StartTLS()
 		} else {
